@@ -286,3 +286,101 @@ def _apply_any(self, vc, a):
 
 
 SimplifyTermUnitary.apply = _apply_any
+
+
+# --- Term._idx_counter / Term.idx: the index multiset the pair search relies on ------------
+# (closes the assumption "Counter(term.idx)[x] = sum |exponent| * occurrences" for the
+# enumerated shapes: objects with positive, negative and higher exponents)
+TK = "adcgen.expr_container:Term"
+
+
+class _SortKeyAbstract(Contract):
+    """canonical sort key at call sites: any injective key (C06 contract)"""
+    key = "adcgen.indices:sort_idx_canonical"
+    props = []
+    assumed = True
+    note = "injective key on registered indices (verified under C06)"
+
+    def apply(self, vc, a):
+        rank = z3.Function("canonical_rank", T.IdxSort, z3.IntSort())
+        t = a["idx"].t
+        seen = vc.ghost.setdefault("_rank_seen", [])
+        for o in seen:
+            if not z3.eq(o, t):
+                vc.assume(z3.Implies(rank(o) == rank(t), o == t))
+        if not any(z3.eq(o, t) for o in seen):
+            seen.append(t)
+        return (Sym(rank(t)),)
+
+
+if _SortKeyAbstract.key not in C.REGISTRY:
+    register(_SortKeyAbstract)
+
+
+class _IdxBase(Contract):
+    props = ["C20"]
+    # (exponent, rank) of the objects of the term
+    SHAPES = [[(1, 2), (1, 2)], [(2, 2), (-1, 1)], [(1, 2), (-2, 2), (1, 1)], [(3, 1)], [(1, 2), (1, 1), (-1, 1)], []]
+    split_first_choice = len(SHAPES)
+
+    def setup(self, vc):
+        shape = self.SHAPES[vc.choose(len(self.SHAPES), "shape")]
+        objs = [T.new_obj(vc, "X", rank, e, pos=n) for n, (e, rank) in enumerate(shape)]
+        return {"self": T.new_term(vc, objs)}
+
+    def symbols(self, a):
+        return [s for o in a["self"].f["objs"] for s in o.f["idx"]]
+
+
+@register
+class TermIdxCounter(_IdxBase):
+    key = TK + "._idx_counter"
+
+    def post(self, vc, a, result):
+        if not isinstance(result, (tuple, PList)):
+            return [("returns-a-tuple-of-(index, count - 1)", False)]
+        items = list(result) if isinstance(result, tuple) else result.items
+        objs = a["self"].f["objs"]
+        out = []
+        for x in self.symbols(a):
+            cnt = z3.IntVal(0)
+            hit = z3.IntVal(0)
+            for it in items:
+                s, n = it
+                cnt = cnt + z3.If(term(s) == x.t, term(n) + 1, 0)
+                hit = hit + z3.If(term(s) == x.t, 1, 0)
+            out.append(("count-is-sum-over-objects-of-|exponent|-times-occurrences",
+                        cnt == T.term_count(objs, x.t)))
+            out.append(("one-entry-per-index", hit == 1))
+        return out or [("empty-term-has-no-indices", len(items) == 0)]
+
+
+def _idx_counter_attr(ip, o):
+    return ip.run_body(TermIdxCounter.key, {"self": o})
+
+
+@register
+class TermIdx(_IdxBase):
+    key = TK + ".idx"
+
+    def setup(self, vc):
+        C.STRUCT_ATTR[("TermV", "_idx_counter")] = _idx_counter_attr
+        return super().setup(vc)
+
+    def post(self, vc, a, result):
+        if not isinstance(result, (tuple, PList)):
+            return [("returns-a-tuple-of-indices", False)]
+        items = list(result) if isinstance(result, tuple) else result.items
+        objs = a["self"].f["objs"]
+        out = []
+        for x in self.symbols(a):
+            cnt = z3.IntVal(0)
+            for s in items:
+                cnt = cnt + z3.If(term(s) == x.t, 1, 0)
+            out.append(("every-index-is-listed-|exponent|-times-per-occurrence-also-on-denominators",
+                        cnt == T.term_count(objs, x.t)))
+        total = z3.IntVal(0)
+        for o in objs:
+            total = total + abs(o.f["exponent"]) * len(o.f["idx"])
+        out.append(("no-other-entries", z3.IntVal(len(items)) == total))
+        return out
